@@ -57,6 +57,10 @@ Side1(a, s) == <<[sp |-> a, st |-> s]>>
 Side2(a, s, b, u) == <<[sp |-> a, st |-> s], [sp |-> b, st |-> u]>>
 Sides(S) == {<< >>} \cup {Side1(a, s) : a \in S, s \in 1..3}
             \cup {Side2(ab[1], s, ab[2], u) : ab \in {c \in S \X S : c[1] # c[2]}, s \in 1..3, u \in 1..2}
+\* a species may be listed by SEVERAL speciesReference elements on one side (A + B + A): its stoichiometry is their sum
+Side3(a, s, b, u, w) == <<[sp |-> a, st |-> s], [sp |-> b, st |-> u], [sp |-> a, st |-> w]>>
+SidesRep(S) == {Side3(ab[1], s, ab[2], u, w) : ab \in {c \in S \X S : c[1] # c[2]}, s \in 1..2, u \in 1..2, w \in 1..2}
+               \cup {<<[sp |-> a, st |-> s], [sp |-> a, st |-> w]>> : a \in S, s \in 1..2, w \in 1..2}
 SidesSmall(S) == {<< >>} \cup {Side1(a, s) : a \in S, s \in {1, 3}}
 SideSp(side) == {side[i].sp : i \in DOMAIN side}
 
@@ -109,8 +113,8 @@ AddReaction ==
        /\ \E t \in (IF Mode = "exhrules" THEN {"uni"} ELSE Pick(KLTpls)), a1 \in Pick(PN), a2 \in Pick(PN), sa \in Pick(SpNames), sb \in Pick(SpNames),
              \* exhrules: R0 = S1 -> 2 S2 with law k*S1 and a LOCAL k (different from / equal to the global k),
              \*           R1 = S2 -> 0   with law k*S2 reading the GLOBAL k (which a rule may assign)
-             reac \in (IF Mode = "sim" THEN Pick(Sides(ok)) ELSE IF Mode = "exhrules" THEN {IF first THEN Side1("S1", 1) ELSE Side1("S2", 1)} ELSE SidesSmall({"S1"})),
-             prod \in (IF Mode = "sim" THEN Pick(Sides(ok)) ELSE IF Mode = "exhrules" THEN {IF first THEN Side1("S2", 2) ELSE << >>} ELSE {<< >>, Side1("S2", 3)}),
+             reac \in (IF Mode = "sim" THEN Pick(Sides(ok) \cup SidesRep(ok)) ELSE IF Mode = "exhrules" THEN {IF first THEN Side1("S1", 1) ELSE Side1("S2", 1)} ELSE SidesSmall({"S1"})),
+             prod \in (IF Mode = "sim" THEN Pick(Sides(ok) \cup SidesRep(ok)) ELSE IF Mode = "exhrules" THEN {IF first THEN Side1("S2", 2) ELSE << >>} ELSE {<< >>, Side1("S2", 3)}),
              extra \in (IF Mode = "sim" THEN Pick({{}, {"S1"}, {"S2"}}) ELSE {{}}),
              lv0 \in (IF Mode = "sim" THEN Pick([PN -> LVals]) ELSE {[n \in PN |-> I(2)], [n \in PN |-> I(5)]}),
              same \in (IF Mode = "sim" THEN Pick(SUBSET PN) ELSE {{}}) :
